@@ -66,6 +66,24 @@ pub fn noisy_layout(r: &mut Rng, steps: &[StepSpec], comments: bool) -> (String,
             sep = ">";
         }
         canon_steps.push(cwords.join(" "));
+        // the position of the modifiers is insignificant: any of them may lead the step (several at
+        // once, also behind the `<` / `>` sugar) or sit between the parameters
+        if r.chance(1, 3) {
+            let (mods, mut rest): (Vec<String>, Vec<String>) = words.iter().cloned().partition(|w| w == "inv" || w == "omit_fwd" || w == "omit_inv");
+            let mut lead: Vec<String> = vec![];
+            for m in mods {
+                match r.below(3) {
+                    0 => lead.push(m),
+                    1 if rest.len() > 1 => {
+                        let at = 1 + r.below(rest.len());
+                        rest.insert(at, m);
+                    }
+                    _ => rest.push(m),
+                }
+            }
+            lead.extend(rest);
+            words = lead;
+        }
         if i > 0 || sep != "|" {
             out += &ws0(r);
             out += sep;
